@@ -308,6 +308,11 @@ def deserialize_address(address, encoding=None, network=None):
             witver = pkh_incl[0] - 0x50 if pkh_incl[0] else 0
             prefix = address[:address.rfind('1')]
             networks = network_by_value('prefix_bech32', prefix)
+            if network:
+                if network not in networks:
+                    raise BKeyError("Network %s not found in extracted networks: %s" % (network, networks))
+            elif networks:
+                network = networks[0]
             witness_type = 'segwit' if not witver else 'taproot'
             if len(public_key_hash) == 20:
                 script_type = 'p2wpkh'
@@ -319,7 +324,7 @@ def deserialize_address(address, encoding=None, network=None):
                 'public_key_hash': '' if not public_key_hash else public_key_hash.hex(),
                 'public_key_hash_bytes': public_key_hash,
                 'prefix': prefix,
-                'network': '' if not networks else networks[0],
+                'network': network or '',
                 'script_type': script_type,
                 'witness_type': witness_type,
                 'networks': networks,
